@@ -350,7 +350,8 @@ func genC14(r *Rng, tier string, idx int) *Plan {
 		}
 		p.Mode = "malformed-idp-answers"
 	default:
-		p = genC03(r, tier, idx/6) // plain logins over the configuration x provider product (discovery documents incl.)
+		j := idx / 6
+		p = genC03(r, tier, j/3*4+j%3) // plain logins over the configuration x provider product (discovery documents incl.); not C03's recovery / stall modes
 		p.Spec.Filters[0].Discovery = true
 		p.Mode = "logins"
 		for i := range p.Ops {
